@@ -167,15 +167,16 @@ Definition to_int_arg (v : fval) : res Z :=
   | _ => PyExc TypeError
   end.
 
-(** utils/text.py [truncate_chars] (after the fix: the bound is clamped at 0). *)
+(** utils/text.py [truncate_chars] (after the fixes: the bound is clamped at 0;
+    a string of at most [num] characters is returned unchanged). *)
 Definition truncate_chars (val : str) (num : Z) (end_ : str) : str :=
-  if (Z.of_nat (length val) <? num)%Z then val
+  if (Z.of_nat (length val) <=? num)%Z then val
   else firstn (Z.to_nat (Z.max 0 (num - Z.of_nat (length end_)))) val ++ end_.
 
-(** utils/text.py before the fix: [val[:num - end_length]] with Python's
-    negative-bound slicing.  Kept to state what was wrong. *)
+(** utils/text.py before the fix of the slice: [val[:num - end_length]] with
+    Python's negative-bound slicing.  Kept to state what was wrong. *)
 Definition truncate_chars_unfixed (val : str) (num : Z) (end_ : str) : str :=
-  if (Z.of_nat (length val) <? num)%Z then val
+  if (Z.of_nat (length val) <=? num)%Z then val
   else py_slice val 0 (Some (num - Z.of_nat (length end_)))%Z ++ end_.
 
 (** string.py:237; [None] = argument not given. *)
@@ -202,7 +203,7 @@ Definition truncatewords_str (v : str) (num : Z) (e : str) : str :=
   let num := if (num <=? 0)%Z then 1%Z else num in
   let words := py_words v in
   if (MAX_TRUNC_WORDS <=? num)%Z then v
-  else if (Z.of_nat (length words) <? num)%Z then join_str [32] words
+  else if (Z.of_nat (length words) <=? num)%Z then join_str [32] words   (* after the fix: <= *)
   else join_str [32] (firstn (Z.to_nat num) words) ++ e.
 
 (** string.py:262 *)
